@@ -24,7 +24,6 @@ import (
 	"github.com/drand/drand/v2/internal/chain"
 	"github.com/drand/drand/v2/internal/core"
 	dnet "github.com/drand/drand/v2/internal/net"
-	"github.com/drand/drand/v2/internal/test"
 	pdkg "github.com/drand/drand/v2/protobuf/dkg"
 	proto "github.com/drand/drand/v2/protobuf/drand"
 	"github.com/drand/drand/v2/verifharness/fix"
@@ -132,7 +131,7 @@ func ChainOf(cs ChainSpec, sp Spec) *Chain {
 		panic(err)
 	}
 	if cs.Kind == "fresh" {
-		return &Chain{ID: cs.ID, Scheme: sch, Pair: fix.DetKeyPair("bench/"+cs.ID+"/"+cs.Scheme, sp.identity(), sch)}
+		return &Chain{ID: cs.ID, Scheme: sch, Pair: fix.DetKeyPair("bench/"+sp.Label+cs.ID+"/"+cs.Scheme, sp.identity(), sch)}
 	}
 	var others []Member
 	if cs.Kind == "group" {
@@ -148,9 +147,9 @@ func ChainOf(cs ChainSpec, sp Spec) *Chain {
 // Start fabricates the chains, starts a real daemon on them and connects clients.
 func Start(ctx context.Context, dir string, ids []string, schemes []string, period time.Duration, l log.Logger) (*Bench, error) {
 	b := &Bench{Dir: dir, Chains: map[string]*Chain{}, Order: ids, Log: l, Period: period}
-	b.Addr = "127.0.0.1:" + test.FreePort()
-	b.PubAddr = "127.0.0.1:" + test.FreePort()
-	b.CtrlPort = test.FreePort()
+	b.Addr = "127.0.0.1:" + FreePort()
+	b.PubAddr = "127.0.0.1:" + FreePort()
+	b.CtrlPort = FreePort()
 	conf := core.NewConfig(l, core.WithConfigFolder(dir), core.WithPrivateListenAddress(b.Addr), core.WithControlPort(b.CtrlPort),
 		core.WithDBStorageEngine(chain.BoltDB), core.WithPublicListenAddress(b.PubAddr),
 		core.WithDkgPhaseTimeout(2*time.Second), core.WithDkgKickoffGracePeriod(time.Second))
